@@ -144,6 +144,65 @@ def check(rep, d):
         rep.fail('C06:foliate.no_interchanger_error', 'foliate raised InterchangerError', r)
 
 
+def spiral(n, mirror=False):
+    Ty, Box, Id = monoidal.Ty, monoidal.Box, monoidal.Id
+    x = Ty('x')
+    unit, counit = Box('unit', Ty(), x), Box('counit', x, Ty())
+    cup, cap = Box('cup', x @ x, Ty()), Box('cap', Ty(), x @ x)
+
+    def w(left, box, right):
+        return (Id(x ** right) @ box @ Id(x ** left)) if mirror else (Id(x ** left) @ box @ Id(x ** right))
+    d = unit
+    for i in range(n):
+        d = d >> w(i, cap, i + 1)
+    d = d >> w(n, counit, n)
+    for i in range(n):
+        d = d >> w(n - i - 1, cup, n - i - 1)
+    return d
+
+
+def check_long(rep, d):
+    """normal forms of a long connected diagram: terminates (no NotImplementedError), well-typed, same boxes, a fixed
+    point, every step of the trace one legal interchange, the same normal form from the middle of the trace"""
+    r = 'spiral with %d boxes: %r' % (len(d), d)
+    rep.case(r, nontrivial=True)
+    for left in (False, True):
+        res = nf(d, left)
+        if res[0] == 'hang':
+            rep.fail('C06:normal_form.terminates', 'normal_form(left=%r) of a connected diagram did not return within 30 s' % left, r)
+            continue
+        if res[0] == 'notimpl':
+            rep.fail('C06:terminates_on_connected', 'NotImplementedError on a connected diagram (left=%r)' % left, r)
+            continue
+        n = res[1]
+        if common.wf_reason(n):
+            rep.fail('C01:normal_form.wf', common.wf_reason(n), r)
+        if (n.dom, n.cod) != (d.dom, d.cod) or sorted(map(repr, n.boxes)) != sorted(map(repr, d.boxes)):
+            rep.fail('C06:nf.reachable', 'the normal form has another type or other boxes', r)
+        again = nf(n, left)
+        if again[0] != 'ok' or again[1] != n:
+            rep.fail('C06:nf.idempotent', 'the normal form of a long diagram is not a fixed point (left=%r)' % left, r)
+        prev, steps = d, []
+        try:
+            for step in monoidal.Diagram.normalize(d, left=left):
+                if key(step) not in neighbours(prev):
+                    rep.fail('C06:normalize.step_legal', 'step %d is not a single interchange of its predecessor' % len(steps), r)
+                    break
+                steps.append(step)
+                prev = step
+                if len(steps) > 2000:
+                    break
+            else:
+                if prev != n:
+                    rep.fail('C06:nf.is_end_of_trace', 'normal_form is not the last diagram yielded by normalize', r)
+                if steps:
+                    mid = nf(steps[len(steps) // 2], left)
+                    if mid[0] != 'ok' or mid[1] != n:
+                        rep.fail('C06:nf.canonical', 'the middle of the trace has another normal form (left=%r)' % left, r)
+        except InterchangerError:
+            rep.fail('C06:normalize.no_interchanger_error', 'normalize raised InterchangerError', r)
+
+
 def run(tier, seed=0, shard=(0, 1)):
     rep_box = []
     try:
@@ -186,6 +245,12 @@ def _run(tier, seed, shard, rep_box):
                 continue
             b = Box('b', d.cod, Ty())
             check(rep, a >> d >> b)
+    # long connected diagrams (spirals and their mirror images): the number of interchanges grows cubically with the number of
+    # boxes (4, 20, 56, 120, 220 moves for 1..5 cups), far beyond what the enumerated diagrams need
+    if shard[0] == 2 % shard[1]:
+        for n_cups in ((2, 3, 4) if tier == 'quick' else (2, 3, 4, 5)):
+            for mirror in (False, True):
+                check_long(rep, spiral(n_cups, mirror))
     # disconnected diagrams with real normalisation work besides their floating scalars: the trace is eventually
     # periodic but need not come back to the input; non-termination must be reported as NotImplementedError
     s0, s1 = Box('s0', Ty(), Ty()), Box('s1', Ty(), Ty())
